@@ -267,6 +267,12 @@ def _plant(tree, world):
             f.write(b"CWD-DECOY-A")
         with open(os.path.join(cwd, "README"), "wb") as f:
             f.write(b"CWD-DECOY-A")
+        # files at the same relative paths as archive members (an archive-internal name used as a file name is relative to the cwd)
+        os.makedirs(os.path.join(cwd, "zd"), exist_ok=True)
+        with open(os.path.join(cwd, "zd", "page.html"), "wb") as f:
+            f.write(b"<html><head><title>CWD-DECOY-A title</title></head></html>")
+        with open(os.path.join(cwd, "zd", "nested.txt"), "wb") as f:
+            f.write(b"CWD-DECOY-A")
     return cwd
 
 
